@@ -30,7 +30,7 @@ def layout(ty, prog):
         return 4, 4
     if ty == "f64":
         return 8, 8
-    if ty == "unit":
+    if ty in ("unit", "Zst"):
         return 0, 1
     if ty == "Tracked":
         return 16, 8
@@ -264,6 +264,20 @@ def host_models():
         return None
 
     H["after_unit"] = H["around_unit"] = unit_param
+
+    def after_zst(path, name, args):
+        # Rust: fn after_zst(_z: Val<Zst>, x: u32) -> u32 { x }. The trampoline takes (out, pointer to z, x) by position: if the
+        # generated code passes fewer machine arguments, x is whatever the next register holds
+        vals = list(args[2:4])
+        if len(vals) == 2 and z3.is_bv(vals[1]) and not isinstance(vals[1], Ptr):
+            x = z3.Extract(31, 0, vals[1]) if vals[1].size() > 32 else vals[1]
+        else:
+            x = z3.BitVec(f"register_garbage_host_{len(path.events)}", 32)
+        path.events.append(Event("host", name, [x]))
+        path.store(args[1], x, 4)
+        return None
+
+    H["after_zst"] = after_zst
 
     def mk(path, name, args):
         path.events.append(Event("host", "mk", [args[2]]))
@@ -566,6 +580,8 @@ def sig_of(fn):
 
 def bits_of(model, ty, v):
     """concrete bit pattern of a model value for `extract run`"""
+    if ty == "Zst":
+        return 0
     x = model.eval(v, model_completion=True)
     if ty == "bool":
         return 1 if z3.is_true(x) else 0
@@ -651,6 +667,10 @@ def check_program(prog, script, dump, modes, k_loop=4, depth=4, timeout_ms=10000
             for (n, t), v in zip(entry.params, ref_args):
                 if t == "unit":
                     continue
+                if t == "Zst":
+                    # the Rust caller passes a pointer for every registered `Val<T>` argument, also a zero-sized one
+                    args.append(Ptr(path.new_region(f"arg_{n}", 0), 0))
+                    continue
                 if is_ref_type(t, prog):
                     r = path.new_region(f"arg_{n}", layout(t, prog)[0])
                     write_value(path, Ptr(r, 0), t, v, prog)
@@ -658,7 +678,7 @@ def check_program(prog, script, dump, modes, k_loop=4, depth=4, timeout_ms=10000
                 else:
                     args.append(scalar_to_clif(t, v))
             try:
-                rv = path.call(fname, args)
+                rv = path.call(fname, args, machine_abi=any(t == "Zst" for _, t in entry.params))
             except PathCut as e:
                 e.path = path
                 raise
